@@ -5,6 +5,7 @@ import PyPhysim.Proofs.C10Combined
 import PyPhysim.Proofs.C10Mmse
 import PyPhysim.Proofs.C10Examples
 import PyPhysim.Model.C10Toy
+import PyPhysim.Proofs.C10Gen
 
 /-!
 # C10 — interference-alignment solvers return valid, power-limited, aligned solutions
@@ -333,6 +334,166 @@ theorem getter_error_poisons_cache_orig :
   constructor <;> decide +kernel
 
 end histories
+
+/-! ## Part A′ : second tie to the source — the cache-invalidation structure, by regeneration
+
+`Generated/C10Effects.lean` is re-emitted from `pyphysim/ia/iabase.py` and `algorithms.py` on
+every check run (`harness/gen/c10.py`): for `IASolverBaseClass` and every concrete solver class,
+for each entry point — overrides resolved per class, `_clear_*` and every other private helper
+inlined — the attributes it resets on every normal path, assigns, writes only on some paths, may
+fill lazily and reads; the attributes a fresh object has; what every lazy fill reads.  The
+theorems below compare those tables with the cache machine and prove the invalidation discipline
+on them, so that a dropped / conditional reset, a getter that stops recomputing, or a new cached
+attribute breaks a proof obligation (independently of the seeded correspondence). -/
+section effects
+open PyPhysim.CacheEffects PyPhysim.Generated
+variable {μ ρ : Type}
+
+/-- The effect table `effect` IS what the cache machine does: for every interpretation `O`, every
+    `K`, every state, every operation and all arguments, `step` (i) changes no field outside the
+    table, (ii) leaves a field listed under `fills` as it was or takes it from `None` to a value,
+    and (iii) leaves `None` in every field listed under `clears` whenever the call is accepted. -/
+theorem model_step_has_table_effect (O : Ops μ ρ) (K : Nat) (st : State μ ρ) (op : Op μ ρ) :
+    let e := effect op.kind
+    let st' := (step Cfg.fixed O K st op).1
+    (∀ x, x ∉ e.touched → x.agree st st')
+    ∧ (∀ x ∈ e.fills, x.agree st st' ∨ (x.isNone st ∧ ¬ x.isNone st'))
+    ∧ ((∀ err, (step Cfg.fixed O K st op).2 ≠ .err err) → ∀ x ∈ e.clears, x.isNone st') :=
+  ⟨step_sameOutside O K st op, fun x hx => step_fillOnly O K st op x hx,
+   fun hok x hx => step_clears O K st op x hx hok⟩
+
+/-- … and the table is not an over-approximation: on concrete two-user solvers of the exact
+    `1 × 1` rational interpretation (kernel-evaluated) every field the table lists for an
+    operation is really changed by that operation. -/
+theorem model_effect_table_is_tight : tight = true :=
+  tight_true
+
+/-- The dependency table `specDeps` IS what the invariants encode: `Coherent` is the conjunction
+    of the clauses of `_W`/`_W_H`, `_full_W_H`, `_full_W` (the clause of `_full_F` is
+    `FullFDerived`), and the clause of a derived field reads that field and the fields `specDeps`
+    lists for it, nothing else. -/
+theorem coherence_reads_only_spec_dependencies (O : Ops μ ρ) (K : Nat) (a b : State μ ρ) :
+    (Coherent O K a ↔ ∀ x ∈ [Fld.w, .wH, .fullWH, .fullW], clause O K x a)
+    ∧ (clause O K .fullF a ↔ FullFDerived O K a)
+    ∧ ∀ x, x.agree a b → (∀ g ∈ specDeps x, g.agree a b) → (clause O K x a ↔ clause O K x b) :=
+  ⟨coherent_iff_clauses O K a, Iff.rfl, fun x hx hd => clause_congr O K x a b hx hd⟩
+
+/-- Bridge (i): every generated row — base class and the five solver classes, overrides resolved
+    per class — restricted to the eight attributes equals the effect of the model operation behind
+    it (same resets, assignments, conditional writes, lazy fills); `solve` resets what `Op.solve`
+    resets and writes nothing else; the remaining entry points write none of the eight; writes
+    outside the eight go to known bookkeeping attributes only; every expected row exists. -/
+theorem generated_effects_match_model :
+    (C10Effects.rows.all (rowMatches C10Effects.stepMethods) && entryPointsPresent C10Effects.rows) = true := by
+  decide +kernel
+
+/-- The attributes of a fresh object of each class are the eight modelled ones — all `None`, as
+    in `State.init` — plus the known others; no entry point touches an attribute `__init__` does
+    not create.  A new private attribute breaks this. -/
+theorem generated_attributes_known :
+    (initMatches C10Effects.initAttrs && mentionsOnlyInit C10Effects.initAttrs C10Effects.rows) = true
+    ∧ ∀ x : Fld, x.isNone (State.init μ ρ) :=
+  ⟨by decide +kernel, init_isNone⟩
+
+/-- In every class the lazily filled attributes found in the source are the model's caches, and
+    the dependency closure of what each fill reads is the closure of `specDeps`. -/
+theorem generated_fill_reads_match_model : fillsMatch C10Effects.fillReads = true := by
+  decide +kernel
+
+/-- Bridge (ii), the sufficiency condition, on the GENERATED tables: every entry point of every
+    class (including `_updateF` / `_updateW` of each solver and `solve`) that writes an attribute
+    resets or rewrites — on every normal path — every lazily cached attribute whose dependency
+    closure, taken from the generated fill read-sets, contains it.  (Only exemption: `_full_F`
+    inside `solve` of the iterative solvers, see `solveExempt`.) -/
+theorem generated_effects_sufficient :
+    sufficientBut solveExempt (depsOf C10Effects.fillReads) C10Effects.rows = true := by
+  decide +kernel
+
+/-- What bridge (ii) means, for ANY object with the generated structure (no reference to the hand
+    model): let every cached attribute have a coherence relation that reads only that attribute
+    and its dependency closure (`Local`), in any value type.  If a call of an entry point — of any
+    of the six classes — changes only what its generated row lists as written, and what it stores
+    in a cached attribute is `None` or coherent (`Obeys`), then it takes coherent objects to
+    coherent objects (for `solve` of the iterative solvers: all caches but `_full_F`). -/
+theorem generated_tables_preserve_coherence {V : Type} (none : V)
+    (rel : String → String → Obj V → Prop)
+    (hloc : ∀ cls, Local (depsOf C10Effects.fillReads cls) (rel cls))
+    (r : Row) (hr : r ∈ C10Effects.rows) (σ τ : Obj V)
+    (hob : Obeys none (depsOf C10Effects.fillReads r.cls) (rel r.cls) r σ τ)
+    (hcoh : Coh none (depsOf C10Effects.fillReads r.cls) (solveExempt r) (rel r.cls) σ) :
+    Coh none (depsOf C10Effects.fillReads r.cls) (solveExempt r) (rel r.cls) τ :=
+  sufficientBut_preserves_coherence none (depsOf C10Effects.fillReads) solveExempt C10Effects.rows
+    generated_effects_sufficient rel hloc r hr σ τ hob hcoh
+
+/-- the hypotheses of `generated_tables_preserve_coherence` are satisfiable in a non-trivial way:
+    values are numbers (`0` = `None`), on the base class `_full_F` is coherent when it is
+    `_F + _P`; the `P` setter (its generated row) stores a new `_P` and resets the three
+    power-dependent caches -/
+example :
+    let rel : String → String → Obj Nat → Prop :=
+      fun cls c σ => cls = baseCls → c = "_full_F" → σ "_full_F" = σ "_F" + σ "_P"
+    let σ : Obj Nat := fun a => if a = "_F" then 1 else if a = "_P" then 2 else if a = "_full_F" then 3 else 0
+    let τ : Obj Nat := fun a => if a = "_F" then 1 else if a = "_P" then 9 else 0
+    let r : Row := { cls := baseCls, name := "P.setter", clears := ["_full_F", "_full_W", "_full_W_H"],
+                     assigns := ["_P"], mayWrite := [], fills := [], reads := ["_multiUserChannel"] }
+    (∀ cls, Local (depsOf C10Effects.fillReads cls) (rel cls)) ∧ r ∈ C10Effects.rows
+    ∧ Obeys 0 (depsOf C10Effects.fillReads r.cls) (rel r.cls) r σ τ
+    ∧ Coh 0 (depsOf C10Effects.fillReads r.cls) (solveExempt r) (rel r.cls) σ := by
+  intro rel σ τ r
+  refine ⟨?_, by decide, ⟨?_, ?_, ?_⟩, ?_⟩
+  · intro cls c a b hab
+    by_cases hcls : cls = baseCls
+    · subst hcls
+      by_cases hc : c = "_full_F"
+      · subst hc
+        have h1 := hab "_full_F" (.inl rfl)
+        have h2 : a "_F" = b "_F" := hab "_F" (.inr (by decide))
+        have h3 : a "_P" = b "_P" := hab "_P" (.inr (by decide))
+        simp only [rel, h1, h2, h3]
+      · simp only [rel, hc, false_implies, implies_true]
+    · simp only [rel, hcls, false_implies]
+  · intro a ha
+    simp only [Row.written, r, List.append_nil, List.cons_append, List.nil_append, List.mem_cons,
+      List.not_mem_nil, or_false, not_or] at ha
+    simp [σ, τ, ha.1, ha.2.2.2]
+  · intro c _ hm
+    simp only [Row.mustWritten, r, List.cons_append, List.nil_append, List.mem_cons, List.not_mem_nil,
+      or_false] at hm
+    rcases hm with rfl | rfl | rfl | rfl
+    · left; decide
+    · left; decide
+    · left; decide
+    · right; intro _ h; exact absurd h (by decide)
+  · intro c _ hm
+    simp only [Row.written, r, List.append_nil, List.cons_append, List.nil_append, List.mem_cons,
+      List.not_mem_nil, or_false] at hm
+    rcases hm with rfl | rfl | rfl | rfl
+    · right; left; decide
+    · right; left; decide
+    · right; left; decide
+    · right; right; intro _ h; exact absurd h (by decide)
+  · intro c _ _
+    by_cases hc : c = "_full_F"
+    · subst hc
+      right
+      intro _ _
+      decide
+    · right
+      intro _ h
+      exact absurd h hc
+
+/-- the condition is not vacuous: the design-round `P` setter (no resets) violates it, and so does
+    a cache `_sqrt_P` of the power that `set_precoders` / `clear` do not know -/
+example :
+    sufficient (depsOf C10Effects.fillReads)
+      [{ cls := baseCls, name := "P.setter", clears := [], assigns := ["_P"], mayWrite := [], fills := [],
+         reads := [] }] = false
+    ∧ sufficient (depsOf ((baseCls, "_sqrt_P", ["_P"]) :: C10Effects.fillReads))
+      [{ cls := baseCls, name := "clear", clears := ["_F", "_Ns", "_P", "_W", "_W_H", "_full_F", "_full_W", "_full_W_H"],
+         assigns := [], mayWrite := [], fills := [], reads := [] }] = false := by
+  decide
+
+end effects
 
 /-! ## Part B : the relations, over `ℂ` -/
 section relations
